@@ -46,7 +46,7 @@ func c05Call(in *sysInst, method, path string, body any, okCodes ...int) (fail s
 var c05QueryNames = []string{
 	"plain.verif.test", "other.verif.test", "blocked.verif.test", "sub.blocked.verif.test",
 	"rw.verif.test", "cname.verif.test", "allow.verif.test", "list.verif.test", "www.youtube.com",
-	"facebook.com", "www.google.com", "duckduckgo.com", "accessblocked.verif.test", "kid.verif.test",
+	"facebook.com", "www.google.com", "duckduckgo.com", "kid.verif.test",
 }
 
 func c05Families(ls *sysListServer) []c05Family {
@@ -286,19 +286,22 @@ func c05Families(ls *sysListServer) []c05Family {
 		}},
 		{"parental_safebrowsing", func(in *sysInst, rng *rand.Rand, i int) (int, []string) {
 			var f []string
-			// Enabled only for an instant: with no network the lookups
-			// cannot succeed, the toggles themselves are what is exercised.
-			for _, p := range []string{"/control/parental/enable", "/control/parental/disable", "/control/safebrowsing/enable", "/control/safebrowsing/disable"} {
+			// Only the disable calls and status reads: with no network the
+			// hash-prefix lookups of an enabled service block every query
+			// for the upstream timeout, which is an artefact of the sandbox.
+			for _, p := range []string{"/control/parental/disable", "/control/safebrowsing/disable"} {
 				if s := c05Call(in, "POST", p, nil); s != "" {
 					f = append(f, s)
 				}
 			}
-			if s := c05Call(in, "GET", "/control/parental/status", nil); s != "" {
-				f = append(f, s)
+			for _, p := range []string{"/control/parental/status", "/control/safebrowsing/status"} {
+				if s := c05Call(in, "GET", p, nil); s != "" {
+					f = append(f, s)
+				}
 			}
 			time.Sleep(40 * time.Millisecond)
 
-			return 5, f
+			return 4, f
 		}},
 	}
 }
@@ -365,7 +368,9 @@ func c05Round(rep *verifkit.Report, round int, loadDur time.Duration) {
 	}
 	defer func() {
 		in.Kill()
-		_ = os.RemoveAll(in.Dir)
+		if os.Getenv("VERIF_KEEP_INST") == "" {
+			_ = os.RemoveAll(in.Dir)
+		}
 	}()
 	rep.Event(fmt.Sprintf("server_gomaxprocs_%d", gmp))
 	// Latency profile of the suspension points the harness owns.
@@ -388,6 +393,7 @@ func c05Round(rep *verifkit.Report, round int, loadDur time.Duration) {
 	fams := c05Families(ls)
 	famCalls := make([]atomic.Int64, len(fams))
 	famFails := make([]atomic.Int64, len(fams))
+	famMicros := make([]atomic.Int64, len(fams))
 	var failMu sync.Mutex
 	failSamples := map[string]string{}
 	for fi := range fams {
@@ -397,7 +403,9 @@ func c05Round(rep *verifkit.Report, round int, loadDur time.Duration) {
 			frng := rand.New(rand.NewSource(rng.Int63() + int64(fi)))
 			for i := 0; !stop.Load(); i++ {
 				adminBusy.Add(1)
+				t0 := time.Now()
 				n, fails := fams[fi].step(in, frng, i)
+				famMicros[fi].Add(time.Since(t0).Microseconds())
 				adminBusy.Add(-1)
 				famCalls[fi].Add(int64(n))
 				if len(fails) > 0 {
@@ -477,6 +485,9 @@ func c05Round(rep *verifkit.Report, round int, loadDur time.Duration) {
 	for fi := range fams {
 		rep.EventN("admin_calls_"+fams[fi].name, int(famCalls[fi].Load()))
 		rep.EventN("admin_calls_failed_"+fams[fi].name, int(famFails[fi].Load()))
+		if c := famCalls[fi].Load(); c > 0 {
+			rep.EventN("admin_avg_ms_per_call_"+fams[fi].name, int(famMicros[fi].Load()/c/1000))
+		}
 		if famCalls[fi].Load()-famFails[fi].Load() <= 0 {
 			rep.Inconcl("admin family " + fams[fi].name + " had no successful call: " + failSamples[fams[fi].name])
 		}
@@ -511,8 +522,10 @@ func c05Round(rep *verifkit.Report, round int, loadDur time.Duration) {
 		rep.EventN("progress_probe_http_ok", okGets)
 		if okProbes < 20 || okGets < 5 {
 			dump := in.Dump()
+			summary, lockers := sysSummarizeDump(dump)
 			rep.Violate("stall-after-quiescence", fmt.Sprintf("after the workload stopped only %d/20 DNS probes and %d/5 admin GETs succeeded within 30 s", okProbes, okGets),
-				map[string]any{"goroutine_dump_tail": sysTail(dump, 12000)})
+				map[string]any{"goroutines_by_state_and_product_frames": summary, "stacks_blocked_on_mutexes": lockers})
+			crashed = true
 		}
 	}
 	clean := in.Stop(20 * time.Second)
@@ -528,7 +541,7 @@ func c05Round(rep *verifkit.Report, round int, loadDur time.Duration) {
 			top = frames[0][1] + "." + frames[0][2]
 		}
 		rep.Violate("server-crash:"+top, "the server process panicked or died with a fatal error", map[string]any{"log": log[loc[0]:end]})
-	} else if crashed {
+	} else if crashed && !rep.Violated() {
 		rep.Violate("server-exit", "the server process exited during the workload", map[string]any{"log_tail": sysTail(log, 6000)})
 	} else if !clean {
 		rep.Violate("shutdown-hang", "the server did not exit within 20 s of SIGTERM", map[string]any{"log_tail": sysTail(log, 12000)})
